@@ -112,8 +112,13 @@ def r_check_precedence(ctx: Ctx, rule: str):
         for r in locked:
             ok = bool(closed_tests) and all(_passes_false_branch(g, closed_tests, r))
             rep.ob(rule, "PoolIsLocked is raised only after the closed-check came out negative", ok, node=r)
+        type_raises = raises_of("NotCoroutineFunction") + raises_of("NotCoroutine")
         for r in closed:
             ok = bool(type_tests) and r not in reach([g.entry], avoid=set(type_tests))
+            if not ok and type_tests and type_raises:
+                # the type tests may be split (`if function:` / `if not iscoroutinefunction(function):`): what matters is the order -
+                # once the closed flag has been looked at no type rejection can follow, and the type tests come first
+                ok = not any(can_follow(ct, tr) for ct in closed_tests for tr in type_raises) and all(any(can_follow(tt, ct) for tt in type_tests) for ct in closed_tests)
             rep.ob(rule, "PoolIsClosed is raised only after the coroutine-function type check", ok, node=r)
             tests_here = [t for t in closed_tests if can_follow(t, r)]
             rep.ob(rule, "PoolIsClosed is guarded by a test of the closed flag", bool(tests_here), node=r)
